@@ -55,7 +55,8 @@ def finish(pid, prop, tier, seed, results, wall):
                     tried[fn] = prop.search(o["name"])
                 except Exception:
                     tried[fn] = None
-            if tried[fn]:
+            # the native failure must be a failure OF THIS CLAUSE (props.<id>.relevant), not of a sibling clause of the same function
+            if tried[fn] and (not hasattr(prop, "relevant") or prop.relevant(o["name"], tried[fn])):
                 o["result"] = "sat"
                 o["solver_output"] = (o.get("solver_output") or "unknown") + " -- failing input found natively"
                 o["witness"] = tried[fn]["witness"]
@@ -94,6 +95,8 @@ def finish(pid, prop, tier, seed, results, wall):
             except Exception as e:
                 found = None
                 native = {"reproduced": False, "detail": f"native search crashed: {e!r}"}
+            if found and hasattr(prop, "relevant") and not prop.relevant(name, found):
+                found = None
             if found:
                 witness, native, reproduced = found["witness"], dict(found["native"], found_by="native search after the solver model did not replay"), True
         o = grp[0]
